@@ -183,8 +183,16 @@ impl Generator {
             Get | BinGet | LongBinGet => !self.state.memo.is_empty(),
 
             // PUT operations - need something to memoize (and not MARK)
-            Put | BinPut | LongBinPut | Memoize => {
+            Put | LongBinPut | Memoize => {
                 self.state.stack.len() >= 1
+                    && self
+                        .peek()
+                        .is_some_and(|obj| !matches!(*obj.borrow(), StackObject::Mark))
+            }
+            // BINPUT has a one-byte index: once the memo holds 256 entries the next free
+            // index no longer fits (and index % 256 would re-define an existing key)
+            BinPut => {
+                self.state.memo.len() < 256
                     && self
                         .peek()
                         .is_some_and(|obj| !matches!(*obj.borrow(), StackObject::Mark))
